@@ -216,7 +216,11 @@ func (con *Connection) Close() error {
 	log.Debug.Println("Close connection and remove session")
 
 	// Remove session from the context
-	con.context.DeleteSessionForConnection(con.connection)
+	// Sessions are stored by remote address. A new connection from the same address and port
+	// (a controller which comes back quickly) may own the entry by now, it must be kept.
+	if session := con.context.GetSessionForConnection(con.connection); session != nil && session.Connection() == net.Conn(con) {
+		con.context.DeleteSessionForConnection(con.connection)
+	}
 
 	return con.connection.Close()
 }
